@@ -513,6 +513,9 @@ class Gmx2World:
                 "longPrice": lp, "shortPrice": sp, "indexPrice": lp,
             })
         self.data = pd.DataFrame(rows, index=pd.DatetimeIndex(self.index))
+        # one world in four has a steep negative impact factor: with a large imbalance (or virtual inventory) the marginal
+        # impact 2 x imbalance x factor of a deposit on the heavy side exceeds the deposit itself
+        self.neg_factor = rng.choice([None, None, None, 2e-9, 1e-8])
 
     def market(self, name="gmx2"):
         from demeter import MarketInfo, MarketTypeEnum
@@ -521,6 +524,9 @@ class Gmx2World:
 
         m = GmxV2Market(MarketInfo(name, MarketTypeEnum.gmx_v2), GmxV2Pool(self.long, self.short, self.long))
         m.data = self.data.copy()
+        if self.neg_factor:
+            m.pool_config.swapImpactFactorNegative = self.neg_factor
+            m.pool_config.swapImpactFactorPositive = self.neg_factor / 2
         return m
 
     def prices(self):
